@@ -1472,8 +1472,16 @@ def select_e2e(cases, tier):
     want = 60 if tier == "quick" else 1200
     # a real system lists every device once: lists that repeat an entry kind (= the same sysfs path) stay with the extractor-level check
     multi = [c for c in cases if len(c["entries"]) >= 2 and len(set(c["entries"])) == len(c["entries"])]
-    step = max(1, len(multi) // want)
-    sel = multi[::step][:want]
+    # spread over the exclude lists as well as over the device lists: per exclude list the same number of cases, evenly spaced, each group starting at its own offset
+    # (a plain stride over the enumeration order had settled on one exclude list - the empty one - for every case)
+    groups = {}
+    for c in multi:
+        groups.setdefault(json.dumps(c["excludes"]), []).append(c)
+    sel = []
+    per = max(1, want // max(1, len(groups)))
+    for gi, (k, g) in enumerate(sorted(groups.items())):
+        step = max(1, len(g) // per)
+        sel += g[(gi * 7) % step::step][:per]
     # every entry kind is seen end to end at least once without any exclude pattern (first and second position)
     have = {id(c) for c in sel}
     kinds = sorted({k for c in multi for k in c["entries"]})
@@ -1484,6 +1492,26 @@ def select_e2e(cases, tier):
                 sel.append(c)
                 have.add(id(c))
     return sel
+
+
+def read_until_quiet(p, marker, quiet, limit):
+    """stderr of a process that never ends by itself: read until `marker` has been seen and nothing more has come for `quiet` seconds (or `limit` is up), then kill it"""
+    import select
+    buf, t0, last = b"", time.time(), time.time()
+    fd = p.stderr.fileno()
+    while time.time() - t0 < limit:
+        r, _, _ = select.select([fd], [], [], 0.03)
+        if r:
+            chunk = os.read(fd, 65536)
+            if not chunk:
+                break
+            buf += chunk
+            last = time.time()
+        elif marker in buf and time.time() - last > quiet:
+            break
+    p.kill()
+    p.wait()
+    return buf.decode("utf-8", "replace")
 
 
 def c16_e2e(res, wd, cases, replay_file=None):
@@ -1522,6 +1550,9 @@ def c16_e2e(res, wd, cases, replay_file=None):
         links = ["/dev/input/by-id/usb-dev%d-event-kbd" % i for i in range(len(nodes))]
         setup = ("mount --bind %s/devices /proc/bus/input/devices && mount --bind %s/sys /sys/devices && mount -t tmpfs tmpfs /dev && mkdir -p /dev/input/by-id && touch %s /dev/input/none; %s "
                  % (d, d, " ".join(nodes) if nodes else "/dev/input/none", " ".join("ln -s ../event%d %s;" % (i, l) for i, l in enumerate(links))))
+        # (--auto-all-keyboards is started first and collected after the other runs: it has to be stopped by a time limit)
+        c3p = subprocess.Popen(["unshare", "-m", "sh", "-c", setup + "exec %s remap --verbose --default-layout caps-q-for-esc --auto-all-keyboards %s" % (binp, exargs)],
+                               stdout=subprocess.DEVNULL, stderr=subprocess.PIPE)
         a = subprocess.run(["unshare", "-m", "sh", "-c", setup + "%s remap --verbose --default-layout caps-q-for-esc --all-keyboards %s" % (binp, exargs)],
                            stdout=subprocess.PIPE, stderr=subprocess.PIPE, text=True, timeout=60)
         dv = " ".join("--dev-file %s" % n for n in nodes)
@@ -1531,6 +1562,19 @@ def c16_e2e(res, wd, cases, replay_file=None):
         alt = [links[i] if i % 2 == 0 else n.replace("/dev/input/", "/dev//input/") for i, n in enumerate(nodes)]
         b2 = subprocess.run(["unshare", "-m", "sh", "-c", setup + "%s remap --verbose --default-layout caps-q-for-esc --only-if-keyboard %s %s" % (binp, exargs, " ".join("--dev-file %s" % n for n in alt))],
                             stdout=subprocess.PIPE, stderr=subprocess.PIPE, text=True, timeout=60) if nodes else None
+        # the third path through the real command line, --auto-all-keyboards: the supervisor lists, filters, says which devices it checks
+        # ("Checking which devices are already running"), fails to open the fabricated nodes and then waits for inotify events: it is stopped there
+        c3err = read_until_quiet(c3p, b"Checking which devices are already running", 0.15, 4.0)
+        sel_auto, in_chk, saw_chk = [], False, False
+        for line in c3err.splitlines():
+            if line.startswith("Checking which devices are already running"):
+                in_chk, saw_chk = True, True
+            elif in_chk and line.startswith(" * "):
+                m = re.match(r' \* "(.*?)": (true|false)$', line)
+                if m and m.group(1) not in sel_auto:
+                    sel_auto.append(m.group(1))
+            elif in_chk and not line.startswith("Failed to open"):
+                in_chk = False
         # list_keyboards: name: path of every keyboard outside the virtual tree (no exclusion on this path)
         lk = subprocess.run(["unshare", "-m", "sh", "-c", setup + "%s list_keyboards" % binp], stdout=subprocess.PIPE, stderr=subprocess.PIPE, text=True, timeout=60)
         listed = [l.rsplit(": ", 1)[1] for l in lk.stdout.splitlines() if ": /dev/" in l]
@@ -1558,7 +1602,8 @@ def c16_e2e(res, wd, cases, replay_file=None):
         rows.append({"id": c["id"], "entries": c["entries"], "excludes": c0["excludes"], "nodes": [{"sysfs": sp, "node": n} for sp, n in zip(sysfs, nodes)],
                      "sel_all": sel_all, "n_all": int(n_all.group(1)) if n_all else -1,
                      "sel_dev": sel_dev, "n_dev": int(n_dev.group(1)) if n_dev else -1, "panicked": panicked,
-                     "sel_alt": sel_alt if b is not None else [], "n_alt": (int(n_alt.group(1)) if n_alt else -1) if b is not None else -1, "listed": listed})
+                     "sel_alt": sel_alt if b is not None else [], "n_alt": (int(n_alt.group(1)) if n_alt else -1) if b is not None else -1, "listed": listed,
+                     "sel_auto": sel_auto, "auto_seen": saw_chk, "panicked_auto": "panicked" in c3err})
         shutil.rmtree(d, ignore_errors=True)
     rp = os.path.join(wd, "e2e_results.ndjson")
     write_ndjson(rp, rows)
@@ -1576,8 +1621,8 @@ def c16_e2e(res, wd, cases, replay_file=None):
         log("replay: C16 holds end to end for this device list with the current tree")
         return 0
     report(res, bad, kn, {c["id"]: c for c in cases}, {r["id"]: r for r in rows}, "E3-device-list-e2e")
-    return {"e2e_cases": judged, "e2e_how": "the real binary `remap --verbose` under unshare -m with fabricated /proc/bus/input/devices, /sys/devices and /dev/input on %d lists, "
-                                             "--all-keyboards and --dev-file --only-if-keyboard, selection read from its verbose output and judged by DevSelect.tla" % judged}
+    return {"e2e_cases": judged, "e2e_auto_all_keyboards_runs_that_reached_the_scan": sum(1 for r in rows if r.get("auto_seen")), "e2e_how": "the real binary `remap --verbose` under unshare -m with fabricated /proc/bus/input/devices, /sys/devices and /dev/input on %d lists, "
+                                             "--all-keyboards, --auto-all-keyboards and --dev-file --only-if-keyboard, selection read from its verbose output and judged by DevSelect.tla" % judged}
 
 
 # ------------------------------------------------------------------ C17: self-check of the oracle against the real systemd
